@@ -463,6 +463,25 @@ inline uint64_t gen_float_bits(Rng &r, Scal s, ValMode mode)
     }
     for (;;) {
         uint64_t bits;
+        if (r.chance(0.02)) {
+            // a value whose bit pattern is one of the format's own words (magic, tag, footer
+            // tag): ordinary finite numbers, e.g. 0xC04F1E70 is the float -3.2362328
+            static const uint32_t words[] = {FM_MAGIC_HEADER, FM_MAGIC_FOOTER, FM_TAG_FIELD, FM_TAG_FIELD + FM_FOOTER_ADD, 0xAB010000u, 0xAB010000u + FM_FOOTER_ADD,
+                                             0xAB020010u, 0xAB020010u + FM_FOOTER_ADD, 0xAB020006u, 0xAB020004u, 0xAB020000u, 0xAB020002u};
+            uint32_t w = words[r.below(12)];
+            if (f32)
+                bits = w;
+            else if (r.chance(0.5))
+                bits = ((uint64_t)(0x40090000u + (uint32_t)r.below(0x10000)) << 32) | w; // low word collides, about 3.1
+            else
+                bits = ((uint64_t)w << 32) | (r.next() & 0xFFFFFFFFull); // high word collides
+            if (mode == VAL_FINITE) {
+                double v = f32 ? (double)bits_f32(bits) : bits_f64(bits);
+                if (!std::isfinite(v) || std::fabs(v) > 3.0e38)
+                    continue;
+            }
+            return bits;
+        }
         switch (r.below(mode == VAL_ANY ? 10 : 8)) {
         case 0:
         case 1:
@@ -1033,8 +1052,10 @@ inline bool sample_lookup(const StackDesc &d, const ModelField &m, Rng &r, std::
                     f = 0;
                 double c = cur[k];
                 // stay in a cell that has an upper neighbour when possible
-                if (r.chance(0.85) && c >= 1 && r.chance(0.5))
+                if (r.chance(0.85) && c >= 1 && r.chance(0.5) && !fixed_cell)
                     c -= 1;
+                if (fixed_cell)
+                    f = 0; // aimed at a given cell: the node itself
                 cur[k] = round_to(l.in_scal, c + f);
             }
             break;
